@@ -5,7 +5,9 @@ Tie X-C17: the real PopenExecutor / PopenFuture / solve_low_level are driven thr
 schedules (label lists) -- every thread of the protocol is a real Python thread running the
 real code, parked at instrumented points (the shutdown Event, the Lock, the registry list,
 Thread.start, Popen, communicate, poll, set_result, result, the cancel thread pool) and
-released one label at a time; after every label the observable state (flag, lock owner,
+released one label at a time (the per-job spawn lock of PopenFuture is instrumented too: the worker's
+first acquisition is the label SpawnEnter, it keeps the lock across the `popen` gate, cancel tasks are
+only scheduled while it is free); after every label the observable state (flag, lock owner,
 registry, per job: thread positions, process, exception, stdout, number of set_result calls;
 per shutdown caller: position and pending cancels / joins) is compared with the extracted
 Coq model run on the same schedule.  Every thread (submitter, worker, shutdown caller, cancel
@@ -58,13 +60,13 @@ ASSUMPTIONS = [
 
 # label tags (coq/Extract/ExC17.v)
 (SUBCHECK, SUBACQ, SUBAPP, SUBSTART, SUBREL, SUBWAIT, POPEN, EXIT, COMMRET, COMMTMO, COMMEXC, FINALLY, SETRES,
- SDSET, SDACQ, SDCANCEL, SDSNAP, SDJOIN, SDRET, SDRAISE, SUBRECHECK, SUBUNLOCK, SDREL) = range(23)
+ SDSET, SDACQ, SDCANCEL, SDSNAP, SDJOIN, SDRET, SDRAISE, SUBRECHECK, SUBUNLOCK, SDREL, SPAWNENTER) = range(24)
 TAGNAME = ["SubCheck", "SubAcquire", "SubAppend", "SubStart", "SubRelease", "SubWait", "Popen", "Exit", "CommRet",
            "CommTimeout", "CommExc", "Finally", "SetResult", "SdSet", "SdAcquire", "SdCancel", "SdSnap", "SdJoin", "SdReturn", "SdRaise",
-           "SubRecheck", "SubUnlock", "SdRelease"]
+           "SubRecheck", "SubUnlock", "SdRelease", "SpawnEnter"]
 RAW = -1      # [RAW, role, gate]: a step of the implementation that has no label in the model
 SUB_TAGS = (SUBCHECK, SUBACQ, SUBAPP, SUBSTART, SUBREL, SUBWAIT, SUBRECHECK, SUBUNLOCK)
-WRK_TAGS = (POPEN, EXIT, COMMRET, COMMTMO, COMMEXC, FINALLY, SETRES)
+WRK_TAGS = (SPAWNENTER, POPEN, EXIT, COMMRET, COMMTMO, COMMEXC, FINALLY, SETRES)
 ANSWER_TEXT = ["unsat\n", "sat\n", "unknown\n", "(error \"boom\")\n"]
 
 
@@ -155,9 +157,9 @@ def parse_trace(res, njobs, nsd):
         i += 5 + n
         o["jobs"] = []
         for _ in range(njobs):
-            spc, v, wpc, proc, exc, out, sets = res[i: i + 7]
-            o["jobs"].append({"spc": [spc, v], "wpc": wpc, "proc": proc, "exc": exc, "out": out, "sets": sets})
-            i += 7
+            spc, v, wpc, proc, exc, out, sets, creq, slock = res[i: i + 9]
+            o["jobs"].append({"spc": [spc, v], "wpc": wpc, "proc": proc, "exc": exc, "out": out, "sets": sets, "creq": creq, "slock": slock})
+            i += 9
         o["sds"] = []
         for _ in range(nsd):
             d, n = res[i], res[i + 1]
@@ -385,6 +387,21 @@ class FakePs:
         return self.p.state == "run"
 
 
+_ATTRS = {}
+
+
+def spawn_attrs():
+    """names of the spawn lock / cancel-request flag of PopenFuture, as T-cancel reads them from the source"""
+    if not _ATTRS:
+        _ATTRS.update(lock="_spawn_lock", flag="_cancel_requested")
+        with contextlib.suppress(Exception):
+            from translate import t_cancel
+
+            info = t_cancel.translate((common.SRC / t_cancel.SRC).read_text())[1]
+            _ATTRS.update(lock=info["spawn_lock"], flag=info["cancel_flag"])
+    return _ATTRS["lock"], _ATTRS["flag"]
+
+
 def install(ctl):
     """Patch halmos.processes / halmos.solve module globals for one forced run."""
     import psutil
@@ -561,11 +578,53 @@ def install(ctl):
 
     RealFuture = P.PopenFuture
 
+    class CtlSpawnLock:
+        """PopenFuture._spawn_lock: taking it is a scheduling point (the worker's first acquisition is
+        the label SpawnEnter; the one of its finally block and those of cancel tasks belong to Finally /
+        SdCancel); the worker keeps it across the `popen` gate"""
+
+        def __init__(self, j):
+            self.j, self.real, self.owner, self.wrk_acq = j, real_threading.Lock(), None, 0
+
+        def acquire(self, blocking=True, timeout=-1):
+            r = ctl.role()
+            if r is not None:
+                if r[0] == "wrk":
+                    self.wrk_acq += 1
+                    ctl.gate("slock" if self.wrk_acq == 1 else "fslock")
+                elif r[0] == "can":
+                    ctl.gate("cslock")
+                else:
+                    ctl.gate("xslock")
+            if not self.real.acquire(timeout=1.5):
+                ctl.errors.append(f"{r} blocks acquiring the spawn lock of job {self.j} (held by {self.owner})")
+                raise _Abort()
+            self.owner = r
+            return True
+
+        def release(self):
+            self.owner = None
+            self.real.release()
+
+        def __enter__(self):
+            return self.acquire()
+
+        def __exit__(self, *a):
+            self.release()
+            return False
+
+        def locked(self):
+            return self.real.locked()
+
+    ctl.SpawnLock = CtlSpawnLock
+
     def mk_future(cmd, timeout=None):
         f = RealFuture(cmd, timeout=timeout)
         j = int(cmd[1])
         f._c17_j = j
         ctl.futs[j] = f
+        if hasattr(f, spawn_attrs()[0]):
+            setattr(f, spawn_attrs()[0], CtlSpawnLock(j))
         orig_set, orig_result = f.set_result, f.result
 
         def set_result(res):
@@ -606,7 +665,7 @@ def verdict_code(res):
 
 
 SUBG = {"enter": 0, "check": 0, "acquire": 1, "recheck": 8, "append": 2, "start": 3, "release": 4, "unlock": 9, "wait": 5}
-WRKG = {"enter": 1, "popen": 1, "comm": 2, "finally": 3, "setres": 4}
+WRKG = {"enter": 1, "slock": 1, "popen": 7, "comm": 2, "fslock": 3, "finally": 3, "setres": 4}
 SUB_GATE = {SUBCHECK: "check", SUBACQ: "acquire", SUBRECHECK: "recheck", SUBUNLOCK: "unlock", SUBAPP: "append",
             SUBSTART: "start", SUBREL: "release", SUBWAIT: "wait"}
 
@@ -639,7 +698,8 @@ def impl_run(case):
             try:
                 out = S.solve_low_level(ctx)
             except P.ShutdownError:
-                ctl.subres[j] = [7, -1]
+                # refused by submit(), or accepted and cancelled before its process existed (delivered by the worker)
+                ctl.subres[j] = [6, 4] if ("wrk", j) in ctl.th else [7, -1]
                 return
             except _Abort:
                 raise
@@ -695,8 +755,11 @@ def impl_run(case):
                     if wpc == 4 and ctl.vfin[j]:
                         wpc = 3
                 f = ctl.futs[j]
-                jb = {"spc": spc, "wpc": wpc, "proc": 0, "exc": 0, "out": -1, "sets": ctl.sets[j]}
+                jb = {"spc": spc, "wpc": wpc, "proc": 0, "exc": 0, "out": -1, "sets": ctl.sets[j], "creq": 0, "slock": 0}
                 if f is not None:
+                    jb["creq"] = int(bool(getattr(f, spawn_attrs()[1], False)))
+                    lk = getattr(f, spawn_attrs()[0], None)
+                    jb["slock"] = int(getattr(lk, "owner", None) is not None)
                     p = f.process
                     jb["proc"] = 0 if p is None else (1 if p.state == "run" else 2)
                     e = f._exception
@@ -756,14 +819,33 @@ def impl_run(case):
                     return err
             return ctl.release(role, gate, action)
 
+        def rel_seq(role, gates, action=None):
+            """one label = the thread passes the remaining gates of `gates` (it is parked at one of them)"""
+            with ctl.cv:
+                t = ctl.th.get(role)
+                g = t["gate"] if t is not None and t["state"] == "parked" else None
+            start = gates.index(g) if g in gates else 0
+            for i in range(start, len(gates)):
+                err = ctl.release(role, gates[i], action if i == len(gates) - 1 else None)
+                if err is not None:
+                    return err
+            return None
+
+        def spawn_lock_free(j):
+            f = ctl.futs[j] if 0 <= j < n else None
+            lk = getattr(f, spawn_attrs()[0], None)
+            return getattr(lk, "owner", None) is None
+
         def apply(lab):
             t, a, b = lab
             if t == RAW:
                 return ctl.release(tuple(a), b)
             if t in SUB_GATE:
                 return rel(("sub", a), SUB_GATE[t])
+            if t == SPAWNENTER:
+                return rel_seq(("wrk", a), ["enter", "slock"])
             if t == POPEN:
-                return rel(("wrk", a), "popen", bool(b))
+                return ctl.release(("wrk", a), "popen", bool(b))
             if t == EXIT:
                 f = ctl.futs[a] if 0 <= a < n else None
                 p = f.process if f is not None else None
@@ -783,7 +865,7 @@ def impl_run(case):
                     # `if self.process:` was false -- the cleanup is skipped (a no-op in the model too)
                     ctl.vfin[a] = False
                     return None
-                return ctl.release(("wrk", a), "finally")
+                return rel_seq(("wrk", a), ["fslock", "finally"])
             if t == SETRES:
                 return ctl.release(("wrk", a), "setres")
             if t == SDSET:
@@ -791,7 +873,7 @@ def impl_run(case):
             if t == SDACQ:
                 return ctl.release(("sd", a), "acquire")
             if t == SDCANCEL:
-                return ctl.release(("can", a, b), "cancel")
+                return rel_seq(("can", a, b), ["cancel", "cslock"])
             if t == SDSNAP:
                 return ctl.release(("sd", a), "snap")
             if t == SDREL:
@@ -827,13 +909,15 @@ def impl_run(case):
                             continue
                         lab = [SUBWAIT, a, 0]
                 elif kind == "wrk":
-                    if g in ("enter", "popen"):
+                    if g in ("enter", "slock"):
+                        lab = [SPAWNENTER, a, 0]
+                    elif g == "popen":
                         lab = [POPEN, a, 1]
                     elif g == "comm":
                         f = ctl.futs[a] if 0 <= a < n else None
                         p = f.process if f is not None else None
                         lab = [EXIT, a, 0] if (p is not None and p.state == "run") else [COMMRET, a, 0]
-                    elif g == "finally":
+                    elif g in ("fslock", "finally"):
                         lab = [FINALLY, a, 0]
                     elif g == "setres":
                         lab = [FINALLY, a, 0] if ctl.vfin[a] else [SETRES, a, 0]
@@ -855,7 +939,9 @@ def impl_run(case):
                     elif g == "return":
                         lab = [SDRET, a, 0]
                 elif kind == "can":
-                    if g == "cancel":
+                    if g in ("cancel", "cslock"):
+                        if not spawn_lock_free(role[2]):
+                            continue            # waits for the worker to leave its spawn section
                         lab = [SDCANCEL, a, role[2]]
                 out.append((lab, role, g))
             return out
@@ -1321,7 +1407,7 @@ def L(*xs):
 
 
 LAB = {"c": SUBCHECK, "a": SUBACQ, "r": SUBRECHECK, "u": SUBUNLOCK, "p": SUBAPP, "s": SUBSTART, "l": SUBREL, "w": SUBWAIT,
-       "P": POPEN, "X": EXIT, "R": COMMRET, "T": COMMTMO, "E": COMMEXC, "F": FINALLY, "S": SETRES,
+       "W": SPAWNENTER, "P": POPEN, "X": EXIT, "R": COMMRET, "T": COMMTMO, "E": COMMEXC, "F": FINALLY, "S": SETRES,
        "ds": SDSET, "da": SDACQ, "dc": SDCANCEL, "dn": SDSNAP, "dl": SDREL, "dj": SDJOIN, "dr": SDRET}
 
 
@@ -1330,33 +1416,35 @@ def _submit(j):
 
 
 CORPUS = [
-    # the witness of the _refuted theorem (coq/Proofs/ExecProofs.v: witness_process, F6)
-    {"name": "witness_process(F6)", "tmos": [0], "waits": [0],
-     "sched": _submit(0) + L(("ds", 0), ("da", 0), ("dc", 0, 0), ("dr", 0), ("P", 0, 1)),
-     "expect": {"no-process-after-shutdown": "cancel-before-popen"}},
     # regression schedules of the repaired defects: the implementation must follow them and the property must hold
     {"name": "regression F5 (446a9a7): flag test before the lock, request and shutdown(wait=False) in between -> rejected under the lock",
      "tmos": [0], "waits": [0], "maximal": True,
      "sched": L(("c", 0), ("ds", 0), ("da", 0), ("dr", 0), ("a", 0), ("r", 0), ("u", 0))},
+    {"name": "regression F6 (1eaaf0c): shutdown(wait=False) cancels a job whose worker has not spawned yet -> never spawned, ShutdownError delivered once",
+     "tmos": [0], "waits": [0], "maximal": True,
+     "sched": _submit(0) + L(("ds", 0), ("da", 0), ("dc", 0, 0), ("dr", 0), ("W", 0), ("F", 0), ("S", 0), ("w", 0))},
+    {"name": "regression F6 (1eaaf0c): the cancel task waits while the worker is between its test and the end of Popen, then kills the process",
+     "tmos": [0], "waits": [0], "maximal": True,
+     "sched": _submit(0) + L(("W", 0), ("ds", 0), ("da", 0), ("P", 0, 1), ("dc", 0, 0), ("dr", 0), ("R", 0, 0), ("F", 0), ("S", 0), ("w", 0))},
     {"name": "regression F15 (0f4e35b): shutdown(wait=True) with a timed-out job first in the snapshot waits for the second job",
      "tmos": [1, 0], "waits": [1], "maximal": True,
-     "sched": _submit(0) + _submit(1) + L(("P", 0, 1), ("P", 1, 1), ("T", 0), ("F", 0), ("S", 0), ("ds", 0), ("da", 0), ("dn", 0), ("dl", 0),
+     "sched": _submit(0) + _submit(1) + L(("W", 0), ("P", 0, 1), ("W", 1), ("P", 1, 1), ("T", 0), ("F", 0), ("S", 0), ("ds", 0), ("da", 0), ("dn", 0), ("dl", 0),
                                           ("dj", 0), ("X", 1), ("R", 1, 0), ("F", 1), ("S", 1), ("dj", 0), ("dr", 0), ("w", 0), ("w", 1))},
     {"name": "regression (2f54d38): submit holds the lock past its flag test while shutdown(wait=True) is requested -> the snapshot waits for the lock and contains the job",
      "tmos": [0], "waits": [1], "maximal": True,
-     "sched": L(("c", 0), ("a", 0), ("r", 0), ("ds", 0), ("p", 0), ("s", 0), ("l", 0), ("da", 0), ("dn", 0), ("dl", 0), ("P", 0, 1),
+     "sched": L(("c", 0), ("a", 0), ("r", 0), ("ds", 0), ("p", 0), ("s", 0), ("l", 0), ("da", 0), ("dn", 0), ("dl", 0), ("W", 0), ("P", 0, 1),
                 ("X", 0), ("R", 0, 0), ("F", 0), ("S", 0), ("dj", 0), ("dr", 0), ("w", 0))},
     # a solver process that ignores SIGTERM (job configuration bit 1): time limit, and shutdown(wait=False)
     {"name": "a job whose process ignores SIGTERM exceeds its time limit: force-killed, delivered, reported unknown",
      "tmos": [3], "waits": [], "maximal": True,
-     "sched": _submit(0) + L(("P", 0, 1), ("T", 0), ("F", 0), ("S", 0), ("w", 0))},
+     "sched": _submit(0) + L(("W", 0), ("P", 0, 1), ("T", 0), ("F", 0), ("S", 0), ("w", 0))},
     {"name": "shutdown(wait=False) force-kills a process that ignores SIGTERM; the job is delivered",
      "tmos": [2], "waits": [0], "maximal": True,
-     "sched": _submit(0) + L(("P", 0, 1), ("ds", 0), ("da", 0), ("dc", 0, 0), ("dr", 0), ("R", 0, 0), ("F", 0), ("S", 0), ("w", 0))},
+     "sched": _submit(0) + L(("W", 0), ("P", 0, 1), ("ds", 0), ("da", 0), ("dc", 0, 0), ("dr", 0), ("R", 0, 0), ("F", 0), ("S", 0), ("w", 0))},
     # a second shutdown request while the first one is in progress (processes.main(): `with` exit = wait=True, callback = wait=False)
     {"name": "shutdown(wait=False) issued while shutdown(wait=True) is blocked in _join kills the job and unblocks it",
      "tmos": [0], "waits": [1, 0], "maximal": True,
-     "sched": _submit(0) + L(("P", 0, 1), ("ds", 0), ("da", 0), ("dn", 0), ("dl", 0), ("ds", 1), ("da", 1), ("dc", 1, 0), ("dr", 1),
+     "sched": _submit(0) + L(("W", 0), ("P", 0, 1), ("ds", 0), ("da", 0), ("dn", 0), ("dl", 0), ("ds", 1), ("da", 1), ("dc", 1, 0), ("dr", 1),
                              ("E", 0), ("F", 0), ("S", 0), ("dj", 0), ("dr", 0), ("w", 0))},
 ]
 
@@ -1366,8 +1454,8 @@ def families(tier):
     fam = []
     if tier == "quick":
         fam += [([0], [], 3, 15), ([1], [], 3, 15)]
-        fam += [([1], [0], 1, 4), ([0], [1], 1, 0), ([0], [0], 1, 15), ([1], [1], 1, 4), ([0], [0, 1], 0, 0), ([1], [0, 0], 0, 4)]
-        fam += [([0, 0], [], 0, 0), ([0, 1], [0], 0, 0), ([0, 0], [1], 0, 0)]
+        fam += [([1], [0], 1, 4), ([0], [1], 1, 0), ([0], [0], 1, 6), ([1], [1], 0, 4), ([0], [0, 1], 0, 0), ([1], [0, 0], 0, 4)]
+        fam += [([0, 0], [], 0, 0), ([0, 1], [0], 0, 0)]
         fam += [([3], [], 2, 6), ([3], [0], 1, 4), ([2], [1, 0], 0, 0)]          # processes that ignore SIGTERM
     else:
         fam += [([0], [], 4, 15), ([1], [], 4, 15)]
@@ -1418,7 +1506,7 @@ def compare_obs(a, b):
         if a[key] != b[key]:
             return f"{key}: implementation {a[key]} model {b[key]}"
     for j, (x, y) in enumerate(zip(a["jobs"], b["jobs"])):
-        for key in ("spc", "wpc", "proc", "exc", "out", "sets"):
+        for key in ("spc", "wpc", "proc", "exc", "out", "sets", "creq", "slock"):
             if x[key] != y[key]:
                 return f"job {j} {key}: implementation {x[key]} model {y[key]}"
     for k, (x, y) in enumerate(zip(a["sds"], b["sds"])):
@@ -1464,10 +1552,10 @@ def run(rep, tier):
     cases = [dict(c, maximal=c.get("maximal", False), family="corpus") for c in CORPUS]
     exhaustive_note = []
     # schedules chosen by the implementation itself (no model needed): random completions from the initial state
-    free_cfg = [([0], [0], 30), ([1], [1], 30), ([0], [1, 0], 50), ([0, 1], [0], 50), ([1, 0], [1], 50), ([0, 0], [1, 0], 60), ([1, 0], [0, 0], 30),
-                ([3], [0], 30), ([2, 3], [0, 1], 40)]
+    free_cfg = [([0], [0], 20), ([1], [1], 20), ([0], [1, 0], 30), ([0, 1], [0], 30), ([1, 0], [1], 30), ([0, 0], [1, 0], 40), ([1, 0], [0, 0], 20),
+                ([3], [0], 20), ([2, 3], [0, 1], 30)]
     if tier != "quick":
-        free_cfg = [(tm, wa, c * 5) for tm, wa, c in free_cfg] + [([0, 1, 0], [1, 0], 300), ([0, 0, 1], [0], 200)]
+        free_cfg = [(tm, wa, c * 8) for tm, wa, c in free_cfg] + [([0, 1, 0], [1, 0], 300), ([0, 0, 1], [0], 200)]
     for tm, wa, cnt in free_cfg:
         for _ in range(cnt):
             cases.append({"tmos": tm, "waits": wa, "sched": [], "free": r.randrange(1 << 30), "maximal": False, "family": f"impl-driven:{len(tm)}j{len(wa)}s"})
@@ -1484,7 +1572,7 @@ def run(rep, tier):
             for s in ss:
                 cases.append({"tmos": tm, "waits": wa, "sched": s, "maximal": True, "family": f"exh:{len(tm)}j{len(wa)}s"})
         # random deeper schedules
-        rnd = [([0, 1], [0], 120, 3), ([0, 0], [1], 100, 3), ([1, 0], [0, 1], 80, 3), ([0], [1, 0], 50, 4), ([0, 1], [1, 0], 80, 3), ([3, 2], [0, 1], 60, 3)] if tier == "quick" else \
+        rnd = [([0, 1], [0], 80, 3), ([0, 0], [1], 70, 3), ([1, 0], [0, 1], 60, 3), ([0], [1, 0], 40, 4), ([0, 1], [1, 0], 60, 3), ([3, 2], [0, 1], 40, 3)] if tier == "quick" else \
               [([0, 1], [0], 700, 4), ([0, 0], [1], 500, 4), ([1, 0], [0, 1], 500, 4), ([0, 1], [1, 0], 500, 4), ([0, 1, 0], [0], 700, 3), ([0, 0, 1], [1], 500, 3), ([0, 1, 0], [0, 1], 500, 3)]
         for tm, wa, cnt, P_ in rnd:
             for s in random_schedules(exe, r, tm, wa, cnt, P_):
@@ -1499,10 +1587,10 @@ def run(rep, tier):
         rand_async = pool.map_async(real_random_run, [r.randrange(1 << 30) for _ in range(nreal)], chunksize=1) if nreal else None
         real = real_async.get(600)
         rand_real = rand_async.get(1500) if rand_async else []
-        ex_cfgs = [([0], [0], 2, 0), ([0], [1], 2, 0), ([1], [1], 1, 4), ([1], [0], 1, 6), ([0], [1, 0], 1, 0), ([0, 0], [0], 0, 0), ([0, 0], [1], 0, 0),
+        ex_cfgs = [([0], [0], 2, 0), ([0], [1], 1, 0), ([1], [1], 1, 4), ([1], [0], 1, 6), ([0], [1, 0], 1, 0), ([0, 0], [0], 0, 0),
                    ([3], [0], 1, 4), ([2], [0], 1, 0)] if tier == "quick" else \
                   [([0], [0], 2, 15), ([1], [1], 2, 4), ([0], [1, 0], 1, 0), ([1], [0, 0], 1, 4), ([0, 0], [0], 1, 0), ([0, 1], [1], 0, 4), ([3], [0], 2, 6), ([2, 3], [0], 0, 4)]
-        ex_cases, ex_res, ex_notes = explore_impl(pool, ex_cfgs, 600 if tier == "quick" else 1500)
+        ex_cases, ex_res, ex_notes = explore_impl(pool, ex_cfgs, 220 if tier == "quick" else 1500)
         exhaustive_note += ex_notes
         impl = []
         nerr = 0
